@@ -485,10 +485,10 @@ fn sized_piece(max_big: u32) -> BoxedStrategy<Piece> {
 fn crypto_strategy(_ctx: &Ctx) -> BoxedStrategy<CryptoCase> {
     let level = prop_oneof![
         // the higher levels allocate (and zero) tables of up to several hundred MiB per call
-        16 => Just(None),
-        12 => (0i32..=3).prop_map(Some),
-        8 => (-7i32..=-1).prop_map(Some),
-        5 => (4i32..=15).prop_map(Some),
+        64 => Just(None),
+        48 => (0i32..=3).prop_map(Some),
+        32 => (-7i32..=-1).prop_map(Some),
+        8 => (4i32..=15).prop_map(Some),
         1 => (16i32..=22).prop_map(Some),
     ];
     let mutn = prop_oneof![
@@ -681,7 +681,8 @@ fn crypto_checks(c: &CryptoCase, out: &mut Outcome) -> Result<(), String> {
         Some(_) if inner.first() != Some(&2) => return Err("compressed file plaintext does not start with the byte 2".into()),
         _ => {}
     }
-    let mine_f = fmt::encode_file(&key, &my_nonce, &file, c.level);
+    // (the level of the independent encoder is irrelevant for the reader: a cheap one)
+    let mine_f = fmt::encode_file(&key, &my_nonce, &file, c.level.map(|l| l.clamp(-1, 1)));
     if must("decode_file of an independently encoded file", guarded(|| codec.decode_file(&mine_f)))? != file {
         return Err("decode_file of an independently encoded file differs".into());
     }
@@ -717,7 +718,7 @@ fn crypto_checks(c: &CryptoCase, out: &mut Outcome) -> Result<(), String> {
         }
         let stored = match c.level {
             None => p.clone(),
-            Some(l) => zstd_encode(&p, l),
+            Some(l) => zstd_encode(&p, l.clamp(-1, 1)),
         };
         let mine_b = seal_message(&key, &my_nonce, &stored);
         if must("decode_blob of an independently encoded blob", guarded(|| codec.decode_blob(&mine_b, ul)))?[..] != p[..] {
@@ -1366,17 +1367,26 @@ fn pw_strategy(ctx: &Ctx) -> BoxedStrategy<PwCase> {
         2 => (any::<u16>(), fault).prop_map(|(s, f)| POp::OpenTampered(s, f)),
     ];
     let p = TreeParams { unit: 512, file_cap: 3000, max_children: 2, depth: 1 };
+    // a short prefix that changes the key set, so that most histories open after a delete
+    let prefix = prop::collection::vec(
+        prop_oneof![(0u8..4).prop_map(POp::Add), any::<u16>().prop_map(POp::Delete)],
+        1..=2,
+    );
     (
         1u64..1_000_000,
         prop::collection::vec(pw, 4),
         tree(p),
-        prop::collection::vec(op, 3..=max_ops),
+        prefix,
+        prop::collection::vec(op, 2..=max_ops - 2),
     )
-        .prop_map(|(key_seed, pool, tree, ops)| PwCase {
-            key_seed,
-            pool: pool.into_iter().enumerate().map(|(i, s)| format!("{i}{s}")).collect(),
-            tree,
-            ops,
+        .prop_map(|(key_seed, pool, tree, mut ops, rest)| {
+            ops.extend(rest);
+            PwCase {
+                key_seed,
+                pool: pool.into_iter().enumerate().map(|(i, s)| format!("{i}{s}")).collect(),
+                tree,
+                ops,
+            }
         })
         .boxed()
 }
